@@ -1,6 +1,7 @@
 """C10 - Program behaviour is independent of how identifiers are spelled."""
 import collections
 
+import batflow
 import progflow
 from vlib import Infra
 
@@ -9,8 +10,11 @@ RULE = ("direction A: TLC enumerates spec/FamC10.tla: 12 base programs covering 
         "function names that the back-ends reserve for themselves or inherit from the shell (_h0, _rv0, _fa0, _fv0, _dvc, _ret, _i, _len, _ma0, f1_x, _sah, _ech, echo, eval, PATH, IFS, "
         "...), case-only variants and rotations of the program's own names; the renamed program is spec/Rename.tla applied by TLC. The real pipeline must either behave as TshDyn "
         "prescribes for the renamed program (Bash run validated by TLC) or refuse to transpile. Alpha invariance of the specification (the expectation of every renaming equals the "
-        "expectation of its base) is checked on every case. Distinct = distinct renamed source text.")
-ASSUME = ["a renaming that the transpiler refuses with an error satisfies the property", "only the Bash target is executed here; Batch case folding is not exercised"]
+        "expectation of its base) is checked on every case. Batch side: for every renamed program without file/command builtins the REAL Batch converter's script is parsed into units "
+        "and executed by TLC under spec/CmdExe.tla, in which variable names and labels fold letter case (R4, R7); stdout and status must equal the reference. The catalogue holds the "
+        "Batch back-end's own names in both cases (_E, _LEN, lf, F1_SUM, _SAH, ...), every pair of variables and both functions of a program spelled alike up to case. "
+        "Distinct = distinct renamed source text.")
+ASSUME = ["a renaming that the transpiler refuses with an error satisfies the property", "there is no cmd.exe in the sandbox: the Batch script runs under spec/CmdExe.tla (rules R1-R12), which states that set/!name!/labels are case-insensitive"]
 
 
 def run(ctx):
@@ -43,4 +47,18 @@ def run(ctx):
         if not v["ok"]:
             bad.append((c, v, progflow.signature(c, v)))
     progflow.report(ctx, bad)
-    return ctx.finish(rule=RULE, assumptions=ASSUME)
+    # Batch side: the REAL Batch converter's script for the renamed program under spec/CmdExe.tla, where variable names and labels fold case
+    keep = [(c, v) for cid, (c, v) in sorted(res.items()) if c["obs"].get("accepted") and "world" not in c["prog"] and batflow.neutral(c["src"]) and v["st"] in ("done", "exit1")]
+    if ctx.tier == "quick":
+        keep = [(c, v) for i, (c, v) in enumerate(keep) if i % 2 == 0 or "/case/" in c["id"] or "/base/" in c["id"] or "/fncase/" in c["id"]]
+    bat, by = batflow.run_cmd(ctx, keep)
+    nbat = 0
+    for c, v in keep:
+        r = by.get(c["id"])
+        if r is None:
+            continue
+        ctx.evaluations += 1
+        if batflow.judge(ctx, c, v, bat[c["id"]], r, tag="@batch"):
+            nbat += 1
+            ctx.traces_validated += 1
+    return ctx.finish(rule=RULE, assumptions=ASSUME, extra={"batch_runs_compared": nbat, "notes": ctx.notes})
